@@ -87,6 +87,10 @@ func C01(ctx *core.Ctx, r *core.Report) {
 	c01InsertsACopy(ctx, r)
 	impliedCasePerNode(ctx, r)
 	c01SubmoduleMergeComplete(ctx, r)
+	// a refine (or any sibling) switched off by if-feature must not take the following ones with it
+	if check := ctx.Fn("meta", "checkFeature"); check != nil {
+		c11OffSkipsOnlyItem(ctx, r, check)
+	}
 	r.Count("instances:memo-key-complete(tables found)", memoKeyComplete(ctx, r, scopeFuncs(ctx, "meta", "resolver.go", "util.go", "find.go", "builder.go")))
 }
 
